@@ -547,7 +547,12 @@ def duration_string(I, args, ins):
 
 @stub('(time.Duration).Seconds', '(time.Duration).Minutes', '(time.Duration).Hours')
 def duration_float(I, args, ins):
-    raise Inconclusive('float duration accessor')
+    d = args[0]
+    name = ins['call']['fn']['n']
+    unit = 1e9 if name.endswith('Seconds') else 6e10 if name.endswith('Minutes') else 3.6e12
+    if is_sym(d):
+        raise Inconclusive('float accessor of a symbolic duration')
+    return d / unit
 
 
 @stub('time.Sleep')
